@@ -81,6 +81,21 @@ def contains(e, pred):
     return bool(found)
 
 
+def const_value(e):
+    """the exact (unbounded) value of an expression made of literals only, None otherwise"""
+    if e[0] == 'num':
+        return e[1]
+    if e[0] == 'un' and e[1] in ('-', '~'):
+        v = const_value(e[2])
+        return None if v is None else (-v if e[1] == '-' else ~v)
+    if e[0] == 'bin' and e[1] in ('+', '-', '*', '<<', '|', '&', '^'):
+        a, b = const_value(e[2]), const_value(e[3])
+        if a is None or b is None or (e[1] == '<<' and not 0 <= b < 32):
+            return None
+        return {'+': a + b, '-': a - b, '*': a * b, '<<': a << b if e[1] == '<<' else 0, '|': a | b, '&': a & b, '^': a ^ b}[e[1]]
+    return None
+
+
 def features(prog):
     """-> set of feature tags of a lib.gen_c.Prog"""
     ty = {}
@@ -162,6 +177,14 @@ def features(prog):
                 contains(e[2], lambda x: x[0] == 'var' and ty.get(x[1], ('u8',))[0] == 's8') and \
                 contains(e[2], lambda x: (x[0] == 'var' and (x[1] in ('X', 'Y') or ty.get(x[1], ('u8',))[0] == 'u8')) or x[0] == 'idx'):
             feats.add('shr_mixed_sign8')
+        if k == 'bin' and e[1] in ('>>', '/', '<', '<=', '>', '>=', '==', '!=', '&&', '||'):
+            # an all-literal operand whose exact value does not fit 16 bits, consumed by an operator that sees the
+            # high bits: the compiler folds literals in 32 bits, C's int here has 16
+            def wide(x):
+                v_ = const_value(x)
+                return v_ is not None and x[0] != 'num' and not -32768 <= v_ <= 65535
+            if contains(e[2], wide) or contains(e[3], wide):
+                feats.add('const_wider_than_16')
         if k == 'bin' and e[1] in ('<<', '>>'):
             feats.add('shift')
             if contains(e[2], lambda x: x[0] == 'bin' and x[1] in ('<<', '>>')):
